@@ -154,6 +154,17 @@ func (r *Result) Cap(s string) {
 	r.Caps = append(r.Caps, s)
 }
 
+// outDir is where evidence and replay files are written: VerifDir, unless
+// VERIF_OUT_DIR redirects them (used when checks are run against a
+// deliberately broken tree, so that the committed evidence is not
+// overwritten).
+func outDir() string {
+	if d := os.Getenv("VERIF_OUT_DIR"); d != "" {
+		return d
+	}
+	return VerifDir
+}
+
 // Check is one property's decision procedure.
 type Check struct {
 	ID        string
@@ -582,7 +593,7 @@ func loadKnownFindings(id string) (known, fixed map[string]string) {
 }
 
 func writeReplay(id string, v *Violation) string {
-	dir := filepath.Join(VerifDir, "replays")
+	dir := filepath.Join(outDir(), "replays")
 	os.MkdirAll(dir, 0o755)
 	h := sha256.Sum256([]byte(v.Key))
 	path := filepath.Join(dir, fmt.Sprintf("%s-%s.json", id, hex.EncodeToString(h[:6])))
@@ -598,7 +609,7 @@ func writeReplay(id string, v *Violation) string {
 }
 
 func writeEvidence(ck *Check, tier string, sd int64, m *Result, nviol int, knownSeen []string, wall float64) {
-	dir := filepath.Join(VerifDir, "evidence")
+	dir := filepath.Join(outDir(), "evidence")
 	os.MkdirAll(dir, 0o755)
 	level := ck.Level
 	if level == "" {
